@@ -81,9 +81,6 @@ func evalChildMain() {
 	for {
 		var rq evalReq
 		if err := dec.Decode(&rq); err == io.EOF {
-			if p := os.Getenv("C14_QSTATS"); p != "" {
-				os.WriteFile(p, []byte(fmt.Sprintf("calls=%d spins=%d scans=%d lastscan=%s\n", qCalls, qSpins, qScans, qLast)), 0o644)
-			}
 			os.Exit(0)
 		} else if err != nil {
 			fmt.Fprintln(os.Stderr, "evalchild:", err)
@@ -113,23 +110,17 @@ func evalChildMain() {
 // before it is known that the call's goroutines ended without one (otherwise the death
 // of the process would be pinned on the next call). No timing: a library goroutine that
 // never ends is a hang, for the hang guard.
-var qCalls, qSpins, qScans int
-var qLast string
-
 func quiesce(baseline int) {
-	buf := make([]byte, 1<<16)
-	qCalls++
+	buf := stackBuf
+	defer func() { stackBuf = buf }()
 	for spin := 0; ; spin++ {
 		if runtime.NumGoroutine() <= baseline {
 			return
 		}
-		qSpins++
 		if spin < 32 {
 			runtime.Gosched()
 			continue
 		}
-		qScans++
-		defer func() { qLast = string(buf) }()
 		var n int
 		for {
 			if n = runtime.Stack(buf, true); n < len(buf) {
@@ -144,6 +135,8 @@ func quiesce(baseline int) {
 		runtime.Gosched()
 	}
 }
+
+var stackBuf = make([]byte, 1<<16)
 
 type evalWorker struct {
 	cmd      *exec.Cmd
